@@ -1,4 +1,4 @@
-package main
+package c09
 
 // C09 — correspondence of the tag-driven encoding: yaml.v3 / encoding/json applied to reflection-populated values of
 // every model type vs `Encode.render` over the regenerated Gen.Types descriptors (Model/Encode.lean).
